@@ -1362,6 +1362,11 @@ def simp(v):
     if k == "call" and v[1] == ("global", "filter") and len(v[2]) == 2 and not v[3] and v[2][0] == ("const", None) and v[2][1][0] in ("list", "tuple") \
             and all(e[0] != "star" and truthy(e) is not None for e in v[2][1][1]):
         return ("list", tuple(e for e in v[2][1][1] if truthy(e)))
+    # the k-th item of an element of zip(A, B, ..) is the element of the k-th sequence at the same position
+    if k == "item" and isinstance(v[2], int) and v[1][0] == "elem" and len(v[1]) == 3:
+        z = strip_transparent(v[1][1])
+        if z[0] == "call" and z[1] == ("global", "zip") and not z[3] and 0 <= v[2] < len(z[2]) and not any(a[0] == "star" for a in z[2]):
+            return simp(("elem", z[2][v[2]], v[1][2]))
     if k == "item" and v[1][0] in ("tuple", "list") and isinstance(v[2], int) and not any(e[0] == "star" for e in v[1][1]):
         if -len(v[1][1]) <= v[2] < len(v[1][1]):
             return v[1][1][v[2]]
